@@ -669,6 +669,97 @@ def work_reuse(task):
     return {"cov": cov, "viol": viol, "nviol": nviol}
 
 
+SIBLING_TUPLES = [(1, 1, 0, 0, 0, 0), (2, 3, 1, 0, 0, 4), (3, 3, 2, 2, 1, 6), (1, 2, -1, 0, 0, 2), (2, 2, 0, 1, 0, 0)]
+
+
+def _construct(ST, params, style):
+    """Three ways of writing the same constructor call (the statements speak of parameter tuples, not spellings)."""
+    mn, mx, ms, im, is_, mode = params
+    if style == 1 and (im, is_, mode) == (0, 0, 0):
+        return ST(_valid_tuple, mn, mx, ms)  # documented defaults: init_min=0, init_max_silence=0, mode=0
+    if style == 2:
+        return ST(validator=_valid_tuple, min_length=mn, max_length=mx, max_continuous_silence=ms, init_min=im,
+                  init_max_silence=is_, mode=mode)
+    return ST(_valid_tuple, mn, mx, ms, im, is_, mode)
+
+
+def _oracle_msg(oracle, params, frames, flags, toks):
+    mn, mx, ms, im, is_, mode = params
+    if oracle == "C01":
+        return tm.check_c01(frames, toks)
+    if oracle == "C02":
+        return tm.check_c02(toks, mn, mx, mode)
+    if oracle == "C03":
+        return tm.check_c03([([f[1] for f in d], a, b) for d, a, b in toks], mn, mx, ms, im, is_, mode)
+    if oracle == "C04":
+        if im > 1:
+            return None
+        se = [(a, b) for _, a, b in toks]
+        exp = tm.segment(flags, mn, mx, ms, mode)
+        return None if se == exp else "delivered %r, greedy segmentation is %r" % (se, exp)
+    return None
+
+
+def work_siblings(task):
+    """Several tokenizers alive at once: tokenizer A (tuple P) is constructed, then B (tuple Q), and both are stepped
+    alternately over the same stream (all streams up to L; every alternation pattern 'A first' / 'B first' / A after B
+    finished / B constructed while A is half-way); each one's tokens are judged by the property's oracle for its own tuple."""
+    oracle, tuples, L = task
+    ST = _auditok()["ST"]
+    cov = {"evaluations": 0, "distinct_nontrivial": 0, "traces_validated_against_impl": 0, "sibling_tokenizer_runs": 0, "samples": []}
+    viol = []
+    nviol = 0
+    for params in tuples:
+        for qi, q in enumerate(SIBLING_TUPLES):
+            if q == tuple(params):
+                continue
+            for n in range(L + 1):
+                for bits in range(1 << n):
+                    fr = frames_of(n, bits)
+                    fl = flags_of(n, bits)
+                    for pattern in range(4):
+                        style = (bits + qi + pattern) % 3
+                        a = _construct(ST, params, style)
+                        if pattern == 3:
+                            ga = a.tokenize(Src(fr), generator=True)
+                            ta = list(itertools.islice(ga, 1))
+                            b = _construct(ST, q, 0)
+                            ta += list(ga)
+                            tb = b.tokenize(Src(fr))
+                        else:
+                            b = _construct(ST, q, (style + 1) % 3)
+                            if pattern == 2:
+                                tb = b.tokenize(Src(fr))
+                                ta = a.tokenize(Src(fr))
+                            else:
+                                gens = [a.tokenize(Src(fr), generator=True), b.tokenize(Src(fr), generator=True)]
+                                outs = [[], []]
+                                live = [True, True]
+                                k = pattern  # who moves first
+                                while live[0] or live[1]:
+                                    if live[k]:
+                                        try:
+                                            outs[k].append(next(gens[k]))
+                                        except StopIteration:
+                                            live[k] = False
+                                    k ^= 1
+                                ta, tb = outs
+                        cov["evaluations"] += 2
+                        cov["sibling_tokenizer_runs"] += 2
+                        cov["traces_validated_against_impl"] += 2
+                        cov["distinct_nontrivial"] += bool(ta) + bool(tb)
+                        for who, pp, toks in (("first-constructed", params, ta), ("second-constructed", q, tb)):
+                            msg = _oracle_msg(oracle, pp, fr, fl, toks)
+                            if msg:
+                                nviol += 1
+                                if len(viol) < 6:
+                                    key = "siblings=%s|%s pattern=%d stream=%s" % (",".join(map(str, params)), ",".join(map(str, q)), pattern, stream_str(n, bits))
+                                    viol.append((key, "two tokenizers alive (%s and %s, alternation %d), the %s one on %s: %s"
+                                                 % (params, q, pattern, who, stream_str(n, bits) or "-", msg),
+                                                 {"kind": "siblings", "oracle": oracle, "params": list(params), "stream": stream_str(n, bits)}))
+    return {"cov": cov, "viol": viol, "nviol": nviol}
+
+
 def work_model_selfcheck(task):
     """RefTok (incremental) against segment() (declarative) - model vs model."""
     tuples, L = task
@@ -719,6 +810,26 @@ def ctor_table(rep):
                                 "accepted" if got else ("raised %r" % err if err else "raised ValueError"),
                                 "accept" if want else "ValueError")
                             rep.violation(key, what, {"kind": "ctor", "params": [mn, mx, ms, im, is_, mode]})
+    # the documented defaults (init_min=0, init_max_silence=0, mode=0) written by omission, and keyword spelling
+    for mn, mx in itertools.product(range(-1, 7), repeat=2):
+        for ms in range(-2, 7):
+            want = tm.accepted(mn, mx, ms, 0, 0, 0)
+            for style in (1, 2):
+                n += 1
+                try:
+                    _construct(ST, (mn, mx, ms, 0, 0, 0), style)
+                    got, err = True, None
+                except ValueError:
+                    got, err = False, None
+                except Exception as exc:
+                    got, err = None, exc
+                acc += bool(got)
+                if got is not want:
+                    key = "ctor=%s style=%d" % (",".join(map(str, (mn, mx, ms))), style)
+                    what = "constructor (%s) %s, statement says %s" % (
+                        "optional arguments omitted" if style == 1 else "keyword arguments",
+                        "accepted" if got else ("raised %r" % err if err else "raised ValueError"), "accept" if want else "ValueError")
+                    rep.violation(key, what, {"kind": "ctor", "params": [mn, mx, ms, 0, 0, 0], "style": style})
     rep.cov["ctor_table"] = {"tuples": n, "accepted": acc}
     rep.add("evaluations", n)
     rep.add("distinct_nontrivial", acc)
@@ -787,7 +898,7 @@ def run(prop, tier):
     if prop == "C04":
         mt = [t for t in tm.grid(4, im_max=0)]
         ncases = 0
-        for n_cases, bad in common.pmap(work_model_selfcheck, [(c, 10 if tier == "quick" else 12) for c in _interleave(mt, common.NPROC)]):
+        for n_cases, bad in common.pmap(work_model_selfcheck, [(c, 10 if tier == "quick" else 12) for c in _interleave(mt, common.NPROC)], guard=False):
             ncases += n_cases
             if bad:
                 print("HARNESS-ERROR: RefTok and segment() disagree on %r" % (bad[:2],))
@@ -809,6 +920,8 @@ def run(prop, tier):
         L1, L2 = (5, 4) if tier == "quick" else (7, 6)
         for c in _interleave(rt, common.NPROC * 2):
             tasks.append(("reuse", (prop, c, L1, L2)))
+        for c in _interleave(rt, common.NPROC * 2):
+            tasks.append(("siblings", (prop, c, 5 if tier == "quick" else 8)))
     lt = [t for t in long_tuples() if prop != "C04" or t[3] <= 1]
     for c in _interleave(lt, common.NPROC * 2):
         tasks.append(("long", (prop, c, 300 if tier == "quick" else 1000)))
@@ -836,6 +949,8 @@ def _dispatch(t):
         return work_long(task)
     if kind == "reuse":
         return work_reuse(task)
+    if kind == "siblings":
+        return work_siblings(task)
     return work_cover(task)
 
 
@@ -843,6 +958,9 @@ def replay(case):
     """Re-execute one recorded case; returns complaint or None."""
     if case["kind"] == "tokreuse":
         part = work_reuse((case["oracle"], [tuple(case["params"])], len(case["first"]), len(case["stream"])))
+        return part["viol"][0][1] if part["viol"] else None
+    if case["kind"] == "siblings":
+        part = work_siblings((case["oracle"], [tuple(case["params"])], len(case["stream"])))
         return part["viol"][0][1] if part["viol"] else None
     if case["kind"] == "lazy":
         from . import chk_split
@@ -853,7 +971,7 @@ def replay(case):
         p = case["params"]
         want = tm.accepted(*p)
         try:
-            ST(_valid_tuple, *p)
+            _construct(ST, tuple(p), case.get("style", 0))
             got = True
         except ValueError:
             got = False
